@@ -33,6 +33,53 @@ impl<K, V> BTreeMap<K, V> {
 pub struct HashMap<K, V> { _p: PhantomData<(K, V)> }
 impl<K, V> HashMap<K, V> {
     pub uninterp spec fn view(&self) -> Map<K, V>;
+    pub uninterp spec fn spec_default() -> Self;
+    #[verifier::external_body]
+    pub proof fn axiom_default_is_empty()
+        ensures Self::spec_default()@ == Map::<K, V>::empty()
+    {}
+    #[verifier::external_body]
+    pub fn get_mut(&mut self, k: &K) -> (r: Option<&mut V>)
+        ensures
+            match r {
+                Some(v) => old(self)@.contains_key(*k) && *v == old(self)@[*k]
+                           && final(self)@ == old(self)@.insert(*k, *final(v)),
+                None => !old(self)@.contains_key(*k) && final(self)@ == old(self)@,
+            },
+    { unimplemented!() }
+    #[verifier::external_body]
+    pub fn get(&self, k: &K) -> (r: Option<&V>)
+        ensures
+            match r {
+                Some(v) => self@.contains_key(*k) && *v == self@[*k],
+                None => !self@.contains_key(*k),
+            },
+    { unimplemented!() }
+    #[verifier::external_body]
+    pub fn contains_key(&self, k: &K) -> (r: bool)
+        ensures r == self@.contains_key(*k),
+    { unimplemented!() }
+    #[verifier::external_body]
+    pub fn len(&self) -> (r: usize)
+        ensures r == self@.len(), self@.dom().finite(),
+    { unimplemented!() }
+    #[verifier::external_body]
+    pub fn insert(&mut self, k: K, v: V) -> (r: Option<V>)
+        ensures final(self)@ == old(self)@.insert(k, v),
+    { unimplemented!() }
+    #[verifier::external_body]
+    pub fn remove(&mut self, k: &K) -> (r: Option<V>)
+        ensures final(self)@ == old(self)@.remove(*k),
+    { unimplemented!() }
+}
+// `map.entry(k).or_default()` (std: returns the stored value, inserting V::default() first when absent)
+impl<K, V2> HashMap<K, HashMap<Fingerprint, V2>> {
+    #[verifier::external_body]
+    pub fn verif_entry_or_default(&mut self, k: K) -> (r: &mut HashMap<Fingerprint, V2>)
+        ensures
+            *r == (if old(self)@.contains_key(k) { old(self)@[k] } else { HashMap::<Fingerprint, V2>::spec_default() }),
+            final(self)@ == old(self)@.insert(k, *final(r)),
+    { unimplemented!() }
 }
 
 // ---------------------------------------------------------------- opaque dependency / prost types
@@ -47,8 +94,32 @@ pub struct SocketAddress { _p: () }
 #[verifier::external_body] pub struct HttpFrontend { _p: () }
 #[verifier::external_body] pub struct TcpFrontend { _p: () }
 #[verifier::external_body] pub struct UdpFrontend { _p: () }
+// CertificateAndKey / Fingerprint: opaque; PEM / X.509 parsing is outside Verus. The three methods are pure in
+// the state (they only see the certificate), which is all a frame condition needs.
 #[verifier::external_body] pub struct CertificateAndKey { _p: () }
+impl Clone for CertificateAndKey { #[verifier::external_body] fn clone(&self) -> (r: Self) ensures r == *self { unimplemented!() } }
+impl CertificateAndKey {
+    #[verifier::external_body]
+    pub fn fingerprint(&self) -> Result<Fingerprint, CertificateError> { unimplemented!() }
+    #[verifier::external_body]
+    pub fn apply_overriding_names(&mut self) -> Result<(), CertificateError> { unimplemented!() }
+}
 #[verifier::external_body] pub struct Fingerprint { _p: () }
+impl Clone for Fingerprint { #[verifier::external_body] fn clone(&self) -> (r: Self) ensures r == *self { unimplemented!() } }
+// `Fingerprint(hex::decode(&s).map_err(|e| StateError::RemoveCertificate(e.to_string()))?)`
+#[verifier::external_body]
+pub fn verif_hex_fingerprint(s: &String) -> Result<Fingerprint, StateError> { unimplemented!() }
+// `Fingerprint(calculate_fingerprint(cert.certificate.as_bytes()).map_err(|e| StateError::ReplaceCertificate(e.to_string()))?)`
+#[verifier::external_body]
+pub fn verif_calc_fingerprint(c: &CertificateAndKey) -> Result<Fingerprint, StateError> { unimplemented!() }
+#[verifier::external_body]
+pub fn verif_fp_eq(a: &Fingerprint, b: &Fingerprint) -> (r: bool) ensures r == (*a == *b) { unimplemented!() }
+#[verifier::external_body]
+pub fn verif_socketaddress_string(a: &SocketAddress) -> String { unimplemented!() }
+#[verifier::external_body]
+pub fn verif_unlikely_msg() -> String { unimplemented!() }
+#[verifier::external_body]
+pub fn verif_failed_insert_msg(a: &SocketAddress) -> String { unimplemented!() }
 #[verifier::external_body] pub struct UnknownEnumValue { _p: () }
 #[verifier::external_body] pub struct CertificateError { _p: () }
 #[verifier::external_body] pub struct IoError { _p: () }
@@ -104,6 +175,19 @@ pub fn merge_custom_http_answers(target: &mut Option<CustomHttpAnswers>, patch: 
 //@item command/src/proto/command.rs struct AlpnProtocols
 //@item command/src/proto/command.rs struct HstsConfig
 //@item command/src/proto/command.rs struct TcpListenerConfig
+//@item command/src/proto/command.rs struct AddCertificate
+// #[derive(Clone)] of the prost struct (ASSUMED: a derived clone is an equal value)
+impl Clone for AddCertificate { #[verifier::external_body] fn clone(&self) -> (r: Self) ensures r == *self { unimplemented!() } }
+//@item command/src/proto/command.rs struct RemoveCertificate
+//@item command/src/proto/command.rs struct ActivateListener
+//@item command/src/proto/command.rs struct DeactivateListener
+//@item command/src/proto/command.rs enum ListenerType
+// prost-generated `impl TryFrom<i32> for ListenerType` (pure)
+impl ListenerType {
+    #[verifier::external_body]
+    pub fn try_from(v: i32) -> Result<ListenerType, UnknownEnumValue> { unimplemented!() }
+}
+//@item command/src/proto/command.rs struct ReplaceCertificate
 //@item command/src/proto/command.rs struct UdpListenerConfig
 //@item command/src/proto/command.rs struct UpdateTcpListenerConfig
 //@item command/src/proto/command.rs struct UpdateUdpListenerConfig
@@ -121,7 +205,11 @@ pub open spec fn same_config(a: ConfigState, b: ConfigState) -> bool {
     &&& a.https_fronts@ == b.https_fronts@
     &&& a.tcp_fronts@ == b.tcp_fronts@
     &&& a.udp_fronts@ == b.udp_fronts@
-    &&& a.certificates@ == b.certificates@
+    &&& certs_view(a.certificates) =~~= certs_view(b.certificates)
+}
+// certificates as address -> (fingerprint -> certificate); an orphan empty bucket is a difference
+pub open spec fn certs_view(m: HashMap<SocketAddr, HashMap<Fingerprint, CertificateAndKey>>) -> Map<SocketAddr, Map<Fingerprint, CertificateAndKey>> {
+    m@.map_values(|inner: HashMap<Fingerprint, CertificateAndKey>| inner@)
 }
 // "changes only the object it names": same domain, every other key maps to the same value
 pub open spec fn only_key_changed<K, V>(a: Map<K, V>, b: Map<K, V>, k: K) -> bool {
@@ -211,6 +299,89 @@ impl ConfigState {
     //@        &&& old(self).https_listeners@.contains_key(k)
     //@        &&& only_key_changed(old(self).https_listeners@, final(self).https_listeners@, k)
     //@        &&& same_config(ConfigState { https_listeners: final(self).https_listeners, ..*old(self) }, *final(self)) }), // [accepted-changes-only-named-listener]
+    //@end
+
+    //@fn command/src/state.rs ConfigState::add_certificate
+    //@  ret r
+    //@  subst "self.certificates.entry(add.address.into()).or_default()" => "self.certificates.verif_entry_or_default(verif_to_sockaddr(add.address))"
+    //@  ensures
+    //@    r is Err ==> same_config(*old(self), *final(self)),                                         // [rejected-leaves-no-trace]
+    //@    r is Ok ==> ({
+    //@        let k = spec_to_sockaddr(add.address);
+    //@        let ov = certs_view(old(self).certificates); let nv = certs_view(final(self).certificates);
+    //@        &&& same_config(ConfigState { certificates: final(self).certificates, ..*old(self) }, *final(self))
+    //@        &&& nv.contains_key(k)
+    //@        &&& forall|j: SocketAddr| j != k ==> (ov.contains_key(j) == nv.contains_key(j) && (ov.contains_key(j) ==> ov[j] == nv[j]))
+    //@        &&& forall|f: Fingerprint| ov.contains_key(k) && #[trigger] ov[k].contains_key(f) ==> nv[k].contains_key(f) && nv[k][f] == ov[k][f] }), // [accepted-changes-only-named-address-and-keeps-its-other-certificates]
+    //@  before "if entry.contains_key(&fingerprint) {"
+    //@    proof { HashMap::<Fingerprint, CertificateAndKey>::axiom_default_is_empty(); }
+    //@end
+
+    //@fn command/src/state.rs ConfigState::remove_certificate
+    //@  ret r
+    //@  subst "Fingerprint(\n            hex::decode(&remove.fingerprint)\n                .map_err(|decode_error| StateError::RemoveCertificate(decode_error.to_string()))?,\n        )" => "verif_hex_fingerprint(&remove.fingerprint)?"
+    //@  subst "&remove.address.into()" => "&verif_to_sockaddr(remove.address)"
+    //@  ensures
+    //@    r is Err ==> same_config(*old(self), *final(self)),                                         // [rejected-leaves-no-trace]
+    //@    r is Ok ==> ({
+    //@        let k = spec_to_sockaddr(remove.address);
+    //@        let ov = certs_view(old(self).certificates); let nv = certs_view(final(self).certificates);
+    //@        &&& same_config(ConfigState { certificates: final(self).certificates, ..*old(self) }, *final(self))
+    //@        &&& forall|j: SocketAddr| j != k ==> (ov.contains_key(j) == nv.contains_key(j) && (ov.contains_key(j) ==> ov[j] == nv[j]))
+    //@        &&& ov.contains_key(k) == nv.contains_key(k) }),                                              // [accepted-changes-only-named-address]
+    //@end
+
+    //@fn command/src/state.rs ConfigState::replace_certificate
+    //@  ret r
+    //@  subst "replace.address.into()" => "verif_to_sockaddr(replace.address)"
+    //@  subst "Fingerprint(\n            hex::decode(&replace.old_fingerprint)\n                .map_err(|decode_error| StateError::RemoveCertificate(decode_error.to_string()))?,\n        )" => "verif_hex_fingerprint(&replace.old_fingerprint)?"
+    //@  subst "Fingerprint(\n            calculate_fingerprint(replace.new_certificate.certificate.as_bytes()).map_err(\n                |fingerprint_err| StateError::ReplaceCertificate(fingerprint_err.to_string()),\n            )?,\n        )" => "verif_calc_fingerprint(&replace.new_certificate)?"
+    //@  subst "replace.address.to_string()" => "verif_socketaddress_string(&replace.address)"
+    //@  subst "self.certificates\n            .get_mut(&replace_address)\n            .map(|certs| certs.insert(new_fingerprint.clone(), replace.new_certificate.clone()));" => "if let Some(certs) = self.certificates.get_mut(&replace_address) { certs.insert(new_fingerprint.clone(), replace.new_certificate.clone()); }"
+    //@  subst "\"Unlikely error. This entry in the certificate hashmap should be present\"\n                    .to_string()," => "verif_unlikely_msg(),"
+    //@  subst "format!(\n                \"Failed to insert the new certificate for address {}\",\n                replace.address\n            )" => "verif_failed_insert_msg(&replace.address)"
+    //@  drop_dassert 0 closure-based is_some_and(..) is outside Verus
+    //@  drop_dassert 1 closure-based is_none_or(..) is outside Verus
+    //@  ensures
+    //@    r is Err ==> same_config(*old(self), *final(self)),                                         // [rejected-leaves-no-trace]
+    //@    r is Ok ==> ({
+    //@        let k = spec_to_sockaddr(replace.address);
+    //@        let ov = certs_view(old(self).certificates); let nv = certs_view(final(self).certificates);
+    //@        &&& same_config(ConfigState { certificates: final(self).certificates, ..*old(self) }, *final(self))
+    //@        &&& ov.contains_key(k) && nv.contains_key(k)
+    //@        &&& forall|j: SocketAddr| j != k ==> (ov.contains_key(j) == nv.contains_key(j) && (ov.contains_key(j) ==> ov[j] == nv[j])) }), // [accepted-changes-only-named-address]
+    //@end
+
+    //@fn command/src/state.rs ConfigState::activate_listener
+    //@  ret r
+    //@  substall "&activate.address.into()" => "&verif_to_sockaddr(activate.address)"
+    //@  substall "activate.address.to_string()" => "verif_socketaddress_string(&activate.address)"
+    //@  ensures
+    //@    r is Err ==> same_config(*old(self), *final(self)),                                         // [rejected-leaves-no-trace]
+    //@    r is Ok ==> ({
+    //@        let k = spec_to_sockaddr(activate.address);
+    //@        &&& only_key_changed(old(self).http_listeners@, final(self).http_listeners@, k)
+    //@        &&& only_key_changed(old(self).https_listeners@, final(self).https_listeners@, k)
+    //@        &&& only_key_changed(old(self).tcp_listeners@, final(self).tcp_listeners@, k)
+    //@        &&& only_key_changed(old(self).udp_listeners@, final(self).udp_listeners@, k)
+    //@        &&& same_config(ConfigState { http_listeners: final(self).http_listeners, https_listeners: final(self).https_listeners,
+    //@               tcp_listeners: final(self).tcp_listeners, udp_listeners: final(self).udp_listeners, ..*old(self) }, *final(self)) }), // [accepted-changes-only-named-listener]
+    //@end
+
+    //@fn command/src/state.rs ConfigState::deactivate_listener
+    //@  ret r
+    //@  substall "&deactivate.address.into()" => "&verif_to_sockaddr(deactivate.address)"
+    //@  substall "deactivate.address.to_string()" => "verif_socketaddress_string(&deactivate.address)"
+    //@  ensures
+    //@    r is Err ==> same_config(*old(self), *final(self)),                                         // [rejected-leaves-no-trace]
+    //@    r is Ok ==> ({
+    //@        let k = spec_to_sockaddr(deactivate.address);
+    //@        &&& only_key_changed(old(self).http_listeners@, final(self).http_listeners@, k)
+    //@        &&& only_key_changed(old(self).https_listeners@, final(self).https_listeners@, k)
+    //@        &&& only_key_changed(old(self).tcp_listeners@, final(self).tcp_listeners@, k)
+    //@        &&& only_key_changed(old(self).udp_listeners@, final(self).udp_listeners@, k)
+    //@        &&& same_config(ConfigState { http_listeners: final(self).http_listeners, https_listeners: final(self).https_listeners,
+    //@               tcp_listeners: final(self).tcp_listeners, udp_listeners: final(self).udp_listeners, ..*old(self) }, *final(self)) }), // [accepted-changes-only-named-listener]
     //@end
 }
 
